@@ -29,6 +29,20 @@ length) and older than / as old as it.  Whatever the state, the outputs must be 
 a cache is either valid for this FASTA or has to be rebuilt.  Only here the log lines that print an absolute path
 (the warnings about the cache files) are left out of the comparison.
 
+"All files written by the CLIs" includes the two index cache files pretext-to-asm leaves beside a FASTA input
+(<fasta>.fai, <fasta>.agp): whenever a run writes them (cache cold, or found stale) they are part of its outputs and are
+compared byte for byte with those of the reference run (key CACHE_KEY + file name in the snapshots; a run that finds a valid
+cache writes none, so they are compared only between runs that both wrote them).  "The same inputs" are the same FILES, however
+their paths are spelled on the command line: each case is also run with -a / -p given relative to the working directory
+(from three directories, so the relative spellings differ) and as an absolute path with a detour (<cwd>/../...), cache cold
+(check_case, cfg["spelling"]).
+
+The .log is an output like any other (only lines printing an absolute path are exempt, and only where said above), at every
+--log-level and also when the run ends in an error: check_log_levels runs maps whose Painted chromosomes carry several tags
+(Target, Singleton, Unloc, ... - tags are kept in sets) at --log-level DEBUG / INFO under several PYTHONHASHSEED values and in
+process, among them maps the tool refuses with a chromosome naming error (two haplotypes, the first one missing from or
+repeated in a group); exit status and every file left in the output directory (the log of the failed run too) must be identical.
+
 "Earlier runs in the same process" cuts both ways (check_sessions): a program that calls the command several times (a
 test-suite, a wrapper looping over samples) does not clean up between the calls.  Sessions are sequences of invocations
 in one process - different inputs, with and without --output, with and without --write-log, other --log-level, other
@@ -136,7 +150,8 @@ class Work:
         cache_state = cfg.get("cache") if isinstance(cfg.get("cache"), dict) else None
         cwd = {"root": self.root, "elsewhere": self.root / "elsewhere", "outdir": out_dir}[cfg.get("cwd", "root")]
         out_arg = f"{OUT}.{out_fmt}" if cfg.get("cwd") == "outdir" else out_dir / f"{OUT}.{out_fmt}"
-        args = ["-a", self.inputs[in_fmt], "-p", self.inputs["pretext"], "-o", out_arg] + cfg.get("extra", [])
+        how = cfg.get("spelling", "abs")
+        args = ["-a", spell(self.inputs[in_fmt], cwd, how), "-p", spell(self.inputs["pretext"], cwd, how), "-o", out_arg] + cfg.get("extra", [])
         self.before = {}
         if cfg.get("outdir"):
             self.prepare_out_dir(cfg["outdir"], out_dir, out_arg, cwd, out_fmt)
@@ -149,8 +164,14 @@ class Work:
                     p.unlink(missing_ok=True)
             elif cfg.get("cache") == "warm" and not all(p.exists() for p in self.cache_files()):
                 build_cache(self.inputs["fa"])
+        sig_before = {p: file_sig(p) for p in self.cache_files()} if in_fmt == "fa" else {}
         try:
-            return self.run_prepared(cfg, args, cwd, out_dir)
+            snap, err = self.run_prepared(cfg, args, cwd, out_dir)
+            if snap is not None:
+                for p, before in sig_before.items():
+                    if p.exists() and file_sig(p) != before:  # written by this run: an output file like the others
+                        snap[CACHE_KEY + p.name] = p.read_bytes()
+            return snap, err
         finally:
             if cache_state and in_fmt == "fa":
                 for p in self.cache_files():  # the next run starts from a cache it asks for itself
@@ -199,6 +220,31 @@ class Work:
         finally:
             mod.FastaIndex = orig
         return code, (exc or "") + err
+
+
+CACHE_KEY = "[index cache written beside the FASTA] "  # snapshot key of <fasta>.fai / <fasta>.agp when the run wrote them
+SPELLINGS = {
+    "abs": "absolute paths",
+    "rel": "paths relative to the working directory",
+    "dots": "absolute paths with a detour (<working directory>/../...)",
+}
+
+
+def file_sig(p):
+    try:
+        st = os.stat(p)
+    except FileNotFoundError:
+        return None
+    return (st.st_ino, st.st_mtime_ns, st.st_size)
+
+
+def spell(path, cwd, how):
+    """the same file under another spelling of its path (a str, so that nothing normalises it on the way)"""
+    if how == "rel":
+        return os.path.relpath(path, cwd)
+    if how == "dots":
+        return f"{cwd}/../{os.path.relpath(path, pathlib.Path(cwd).parent)}"
+    return str(path)
 
 
 # ------------------------------------------------------------------ states of the FASTA index cache
@@ -251,6 +297,8 @@ def other_version(case):
 def describe(cfg):
     """in words: what the run found on disk (output directory, cache files) - used in the failure messages"""
     parts = []
+    if cfg.get("spelling", "abs") != "abs":
+        parts.append(f"-a / -p given as {SPELLINGS[cfg['spelling']]}, working directory '{cfg.get('cwd', 'root')}'")
     if od := cfg.get("outdir"):
         if od.get("prior"):
             runs = ", then ".join("the same inputs" if x == "same" else f"other inputs (case {x})" for x in od["prior"])
@@ -624,6 +672,9 @@ def replay_history(inp, rounds=60):
 
 
 def diff_snapshots(a, b):
+    # index cache files are outputs of the runs that wrote them: compared whenever both runs did
+    if one_sided := {n for n in set(a) ^ set(b) if n.startswith(CACHE_KEY)}:
+        a, b = ({n: v for n, v in x.items() if n not in one_sided} for x in (a, b))
     if sorted(a) != sorted(b):
         return f"different sets of output files: {sorted(a)} vs {sorted(b)}"
     for name in sorted(a):
@@ -640,7 +691,7 @@ def diff_snapshots(a, b):
 
 def assembly_rows(snap):
     """{file name: rows} of the assembly files (.agp) of a snapshot"""
-    return {n: [ln for ln in data.split(b"\n") if ln and not ln.startswith(b"#")] for n, data in snap.items() if n.endswith(".agp")}
+    return {n: [ln for ln in data.split(b"\n") if ln and not ln.startswith(b"#")] for n, data in snap.items() if n.endswith(".agp") and not n.startswith(CACHE_KEY)}
 
 
 def compare(work, ref_cfg, ref, cfg, col, rows_only=False):
@@ -675,6 +726,12 @@ def compare(work, ref_cfg, ref, cfg, col, rows_only=False):
             f"directory ({ref_cfg}): {d} - the output files depend on what earlier runs left on disk, not only on the input files",
             inp,
         )
+    elif d and not isinstance(cfg.get("cache"), dict) and cfg.get("spelling", "abs") != "abs":
+        col.fail(
+            f"case {work.case['name']}: {found}; the files written by the run {cfg} differ from those written by the run {ref_cfg} on the same "
+            f"input files: {d} - the files written depend on how the input paths are spelled / on the working directory, not only on the input files",
+            inp,
+        )
     elif d and found:
         col.fail(
             f"case {work.case['name']}: {found}; the outputs of the run {cfg} differ from those of the run without cache ({ref_cfg}) on the "
@@ -705,6 +762,17 @@ def check_case(case, col, quick, rng, full_cache=True):
         if not quick:
             runs += [{"via": "subprocess", "hashseed": s, "cwd": rng.choice(("root", "elsewhere", "outdir")), "cache": rng.choice(("cold", "warm"))} for s in (3, 4, 5, 11, 4242, "random")]
         runs += [{"via": "inprocess", "cwd": "root", "cache": "warm"}, {"via": "inprocess", "cwd": "outdir", "cache": "cold"}]
+        # the same input files under other spellings of their paths, from other working directories; cache cold, so that the
+        # cache files beside the FASTA are written (and compared) as well
+        if quick:
+            runs += [{"via": "inprocess", "cwd": "elsewhere", "cache": "cold", "spelling": "rel"}, {"via": "inprocess", "cwd": "outdir", "cache": "cold", "spelling": "dots"}]
+            if full_cache:
+                runs += [{"via": "subprocess", "hashseed": 1, "cwd": "outdir", "cache": "cold", "spelling": "rel"}, {"via": "inprocess", "cwd": "root", "cache": "cold", "spelling": "rel"}]
+        else:
+            for k, (how, cwd) in enumerate(itertools.product(("rel", "dots"), ("root", "elsewhere", "outdir"))):
+                runs.append({"via": "inprocess", "cwd": cwd, "cache": "cold", "spelling": how})
+                runs.append({"via": "subprocess", "hashseed": k, "cwd": cwd, "cache": ("cold", "warm")[k % 2] if how == "dots" else "cold", "spelling": how})
+            runs.append({"via": "inprocess", "cwd": "elsewhere", "cache": "cold", "spelling": "rel", "in_fmt": "fa", "out_fmt": "fa", "buffer": 100})
         # stream buffer sizes (reachable in process: the index class used by the CLI module is given another default)
         for b in (250_000, 1000, 200, 100, 64, 7) if quick else (250_000, 4096, 1000, 250, 200, 150, 100, 64, 50, 7, 1):
             runs.append({"via": "inprocess", "cwd": "root", "cache": ("warm", "cold")[b % 2], "buffer": b})
